@@ -727,6 +727,8 @@ func chainRule(c *core.Ctx) {
 		}
 		// polarity: a looked-up value is used only where its own ok is established true; a character / septet is rejected
 		// (error return, `return false`, listed as invalid) only where the lookups that could accept it are established false
+		mergedOk := map[ssa.Value][]*ssa.Lookup{} // ok phi -> the lookups merged into it
+		mergedVal := map[*ssa.Phi]*ssa.Phi{}      // value phi -> its ok phi
 		{
 			okOf := map[*ssa.Lookup]ssa.Value{}
 			for _, lk := range lookups {
@@ -734,6 +736,56 @@ func chainRule(c *core.Ctx) {
 					for _, r := range *lk.Referrers() {
 						if ex, ok := r.(*ssa.Extract); ok && ex.Index == 1 {
 							okOf[lk] = ex
+						}
+					}
+				}
+			}
+			// merged lookups: `r, ok = tableA[x]` in one arm, `r, ok = tableB[y]` in another, one shared test of ok behind
+			// them. ok and r are then phis with matching edges (edge i: the outcome resp. the value of lookup i); the test of
+			// the ok phi speaks for every lookup merged into it.
+			for _, b := range fn.Blocks {
+				var okPhis, valPhis []*ssa.Phi
+				for _, ins := range b.Instrs {
+					ph, isPhi := ins.(*ssa.Phi)
+					if !isPhi {
+						break
+					}
+					if bt, isB := ph.Type().Underlying().(*types.Basic); isB && bt.Kind() == types.Bool {
+						okPhis = append(okPhis, ph)
+					} else {
+						valPhis = append(valPhis, ph)
+					}
+				}
+				for _, op := range okPhis {
+					var lks []*ssa.Lookup
+					good := len(op.Edges) >= 2
+					for _, e := range op.Edges {
+						ex, isE := e.(*ssa.Extract)
+						if !isE || ex.Index != 1 {
+							good = false
+							break
+						}
+						lk, isL := ex.Tuple.(*ssa.Lookup)
+						if !isL || okOf[lk] != ssa.Value(ex) {
+							good = false
+							break
+						}
+						lks = append(lks, lk)
+					}
+					if !good {
+						continue
+					}
+					mergedOk[op] = lks
+					for _, vp := range valPhis {
+						match := len(vp.Edges) == len(lks)
+						for i, e := range vp.Edges {
+							ex, isE := e.(*ssa.Extract)
+							if !match || !isE || ex.Index != 0 || ex.Tuple != ssa.Value(lks[i]) {
+								match = false
+							}
+						}
+						if match {
+							mergedVal[vp] = op
 						}
 					}
 				}
@@ -781,6 +833,14 @@ func chainRule(c *core.Ctx) {
 							}
 						}
 					}
+					for _, lk := range mergedOk[cond] {
+						if viaTrue {
+							trueOk[lk] = true
+						}
+						if viaFalse {
+							falseOk[lk] = true
+						}
+					}
 					if bo, ok := cond.(*ssa.BinOp); ok && (viaTrue || viaFalse) {
 						// index compared with len(...) in either operand order: the index ran past the end after an escape indicator
 						for _, side := range []ssa.Value{bo.X, bo.Y} {
@@ -808,6 +868,20 @@ func chainRule(c *core.Ctx) {
 					}
 					for _, use := range *ex.Referrers() {
 						if _, isDbg := use.(*ssa.DebugRef); isDbg {
+							continue
+						}
+						// merged with the value of another arm's lookup: judged at the uses of the merged value
+						if vp, isPhi := use.(*ssa.Phi); isPhi && mergedVal[vp] != nil {
+							if vp.Referrers() != nil {
+								for _, u2 := range *vp.Referrers() {
+									if _, isDbg := u2.(*ssa.DebugRef); isDbg {
+										continue
+									}
+									if t, _, _ := facts(u2.Block()); !t[lk] {
+										problems = append(problems, "the value looked up in "+tablesName(lk, want)+" is used at "+c.Prog.Pos(u2.Pos())+" where its ok is not established true (a missing entry yields the zero value)")
+									}
+								}
+							}
 							continue
 						}
 						if t, _, _ := facts(use.Block()); !t[lk] {
@@ -888,7 +962,30 @@ func chainRule(c *core.Ctx) {
 									problems = append(problems, "a looked-up character is narrowed to "+u.Type().String()+" at "+c.Prog.Pos(u.Pos())+": characters above that range (e.g. the euro sign) are corrupted")
 								}
 							}
-						case *ssa.DebugRef, *ssa.Phi:
+						case *ssa.Phi:
+							// the merged value of several lookups: its sinks count for this lookup
+							if mergedVal[u] != nil && u.Referrers() != nil {
+								for _, u2 := range *u.Referrers() {
+									if cu, isCall := u2.(*ssa.Call); isCall {
+										n := calleeName(cu)
+										if strings.HasSuffix(n, ".WriteRune") || n == "unicode/utf8.AppendRune" || n == "unicode/utf8.EncodeRune" {
+											emitted += len(tableChoices(lk, want))
+										} else {
+											problems = append(problems, "a looked-up character is passed to "+n+" at "+c.Prog.Pos(cu.Pos()))
+										}
+									}
+									if cv, isCv := u2.(*ssa.Convert); isCv {
+										if bt, isB := cv.Type().Underlying().(*types.Basic); isB && bt.Info()&types.IsString != 0 {
+											emitted += len(tableChoices(lk, want))
+										} else if isB && bt.Info()&types.IsInteger != 0 {
+											if sz, _ := typeRange(cv.Type()); sz.hi != nil && sz.hi.BitLen() < 21 {
+												problems = append(problems, "a looked-up character is narrowed to "+cv.Type().String()+" at "+c.Prog.Pos(cv.Pos())+": characters above that range (e.g. the euro sign) are corrupted")
+											}
+										}
+									}
+								}
+							}
+						case *ssa.DebugRef:
 						}
 					}
 				}
